@@ -189,8 +189,8 @@ def elabBodyS (A : Arith V) (s : SSt V) (formals qubits : List String) :
     | some b => (elabBodyS A s formals qubits rest).map (b :: ·)
     | none => none
 
-/-- `measure a -> c`: whole registers of equal size, or one qubit to one bit; the recorded
-key is the circuit qubit -/
+/-- `measure a -> c`: whole registers of equal size, or one qubit to one bit of the register
+(`j` below its size); the recorded key is the circuit qubit -/
 def elabMeasureS (s : SSt V) (q c : Arg) : Option (Op V) :=
   match argIndicesS s.qregs q with
   | none => none
@@ -201,7 +201,8 @@ def elabMeasureS (s : SSt V) (q c : Arg) : Option (Op V) :=
        | none, none =>
          if qsz != csz then none else
          some (.measure loc ((List.range qsz).map fun i => (loc.getD i 0, c.name, i)))
-       | some _, some j => some (.measure loc [(loc.getD 0 0, c.name, j)])
+       | some _, some j =>
+         if j < csz then some (.measure loc [(loc.getD 0 0, c.name, j)]) else none
        | _, _ => none)
     | _, _ => none
 
